@@ -642,6 +642,10 @@ func (e *Engine) execSimple(st *State, fr *Frame, ins ssa.Instruction) {
 			loc := &Loc{Kind: LHeap, Obj: obj, Root: elem, T: elem}
 			e.store(st, loc, e.zeroVal(elem))
 			fr.regs[x] = Val{T: x.Type(), L: []string{obj}, R: []*Refine{{Loc: loc}}}
+			if fr.heapAllocs == nil {
+				fr.heapAllocs = map[*ssa.Alloc]*Loc{}
+			}
+			fr.heapAllocs[x] = loc
 			if x.Comment != "" {
 				if fr.heapNames == nil {
 					fr.heapNames = map[string]*Loc{}
